@@ -1097,16 +1097,20 @@ def _const_val(k):
 ENUM_DISCR = {}
 
 
-def reachable_cp(fn, starts, cut_edges=(), cut_blocks=(), init=None, max_states=30000, marks=None):
+def reachable_cp(fn, starts, cut_edges=(), cut_blocks=(), init=None, max_states=30000, marks=None, ret_states=None):
     """Like reachable(), but path-sensitive on locals that hold constants and are
     later switched on (the `let flag = match … { A => true, … }; if flag {…}` idiom):
     a switch whose operand has a known constant on this path takes only that edge.
     Falls back to plain reachability if the state budget is exceeded.
     With `marks` (a set of blocks) only the blocks entered AFTER a marked block has been executed on the path are returned:
-    `reachable_cp(f, [0], marks={b})` is "what can follow b", with everything the path learnt before b still known."""
+    `reachable_cp(f, [0], marks={b})` is "what can follow b", with everything the path learnt before b still known.
+    With `ret_states` (a list) every reached return appends (block, what is known about the return slot): an int for a known
+    constant, 'Ok'/'Err'/'Some'/'None' for a known variant, None otherwise; ['overflow'] is appended if the budget ran out."""
     cut_edges, cut_blocks = set(cut_edges), set(cut_blocks)
     # locals worth tracking: switch operands and what is copied into them
     track = set()
+    if ret_states is not None:
+        track.add(0)
     for b in fn.bbs:
         t = b['t']
         if t[0] == 'sw' and t[1][0] in ('c', 'm') and not t[1][1][1]:
@@ -1138,6 +1142,8 @@ def reachable_cp(fn, starts, cut_edges=(), cut_blocks=(), init=None, max_states=
             continue
         seen.add((bb, st))
         if len(seen) > max_states:
+            if ret_states is not None:
+                ret_states.append('overflow')
             if marks is not None:
                 return reachable(fn, [x for m_ in marks for x in succs(fn, m_)], cut_blocks, cut_edges, _plain=True)
             return reachable(fn, starts, cut_blocks, cut_edges, _plain=True)
@@ -1189,6 +1195,10 @@ def reachable_cp(fn, starts, cut_edges=(), cut_blocks=(), init=None, max_states=
                     env[l] = pv
                     continue
                 env[vk] = pv
+            elif rv[0] == 'ref' and not rv[2] and not rv[1][1] and ('V', rv[1][0]) in env:
+                # `&result` handed to is_ok() / as_ref(): the shared borrow shows the same variant
+                env[vk] = env[('V', rv[1][0])]
+                env.pop(pk, None)
             elif rv[0] == 'disc' and not rv[1][1] and ('V', rv[1][0]) in env:
                 vname = env[('V', rv[1][0])]
                 env[l] = ENUM_DISCR[vname] if vname in ENUM_DISCR else {'Ok': 0, 'Err': 1, 'None': 0, 'Some': 1, 'Continue': 0, 'Break': 1}[vname]
@@ -1261,12 +1271,18 @@ def reachable_cp(fn, starts, cut_edges=(), cut_blocks=(), init=None, max_states=
                     env[vk] = av
                 elif av is not None and re.search(r'Option::<T>::(ok_or|ok_or_else)$', t[1]):
                     env[vk] = 'Ok' if av == 'Some' else 'Err'
+                elif av is not None and re.search(r'Result::<.*>::(is_ok|is_err)$|Option::<T>::(is_some|is_none)$', t[1]):
+                    good = av in ('Ok', 'Some')
+                    env[t[4][0]] = int(good if re.search(r'(is_ok|is_some)$', t[1]) else not good)
+                    env.pop(vk, None)
                 else:
                     env.pop(vk, None)
             for m_ in moved_args:
                 if t[4][1] or m_ != t[4][0]:
                     env.pop(('V', m_), None)
                     env.pop(('P', m_), None)
+        if t[0] == 'ret' and ret_states is not None and (marks is None or ('M', 0) in env):
+            ret_states.append((bb, env.get(0, env.get(('V', 0)))))
         if t[0] == 'sw' and t[1][0] in ('c', 'm') and not t[1][1][1] and t[1][1][0] in env:
             v = str(env[t[1][1][0]])
             listed = dict(t[2])
